@@ -217,32 +217,7 @@ func c02Listener(c *Ctx) {
 	}
 	reqAl := core.Strip(certCall.Call.Args[2])
 
-	// R-C02.2: waiver call sites across the module
-	nW := 0
-	var fetchBlocks []*ssa.BasicBlock
-	for _, fn := range p.ModuleFuncs() {
-		for _, wc := range callsNamed(fn, mod+".WithAlpnProtoPrefix") {
-			s, isC := core.ConstString(wc.Call.Args[0])
-			construct := fmt.Sprintf("WithAlpnProtoPrefix call in %s", core.FuncName(fn))
-			if fn != G {
-				if !isC || s == fetchPrefix {
-					r.Bad("R-C02.2", construct, p.Pos(wc.Pos()), "the verification waiver option is built outside the listener's fetch branch")
-				}
-				continue
-			}
-			nW++
-			if !isC || s != fetchPrefix {
-				r.Bad("R-C02.2", construct+" argument", p.Pos(wc.Pos()), "waiver option with a non-constant or unexpected prefix")
-				continue
-			}
-			fetchBlocks = append(fetchBlocks, wc.Block())
-			res := core.CutReach(p, G, gFetch, wc.Block())
-			r.CutOb(p, "R-C02.2", construct+" under HasPrefix(p, fetch prefix)", p.Pos(wc.Pos()), res, gFetch)
-		}
-	}
-	if nW == 0 {
-		r.Unk("R-C02.2", gname+" waiver site", p.Pos(G.Pos()), "no WithAlpnProtoPrefix call found in the listener closure")
-	}
+	fetchBlocks := c02WaiverSites(c, G, "R-C02.2")
 	// authentication block: Unmarshal into the certificate request
 	var authUnm []*ssa.Call
 	for _, u := range callsNamed(G, "google.golang.org/protobuf/proto.Unmarshal") {
@@ -505,4 +480,43 @@ func c02Accept(c *Ctx) {
 		}
 	}
 	r.Check(okCfg, "R-C02.5", name+" handshake configuration", p.Pos(servers[0].Pos()), "GetConfigForClient is the listener's own callback", "the handshake does not run the listener's GetConfigForClient callback")
+}
+
+// c02WaiverSites checks that the fetch-only verification waiver option
+// WithAlpnProtoPrefix(<fetch prefix>) is built only in the listener's
+// GetConfigForClient closure, only under HasPrefix(p, <fetch prefix>); shared
+// with C07 (the same option switches off the client's verification). Returns
+// the blocks of the accepted sites.
+func c02WaiverSites(c *Ctx, G *ssa.Function, rule string) []*ssa.BasicBlock {
+	p, r := c.P, c.R
+	gname := core.FuncName(G)
+	fetchPrefix := c.rootConst("FetchNodeCredsNextProtoV1Prefix")
+	gFetch := strPrefixGuard("p, fetch prefix", func(ssa.Value) bool { return true }, fetchPrefix)
+	// R-C02.2: waiver call sites across the module
+	nW := 0
+	var fetchBlocks []*ssa.BasicBlock
+	for _, fn := range p.ModuleFuncs() {
+		for _, wc := range callsNamed(fn, mod+".WithAlpnProtoPrefix") {
+			s, isC := core.ConstString(wc.Call.Args[0])
+			construct := fmt.Sprintf("WithAlpnProtoPrefix call in %s", core.FuncName(fn))
+			if fn != G {
+				if !isC || s == fetchPrefix {
+					r.Bad(rule, construct, p.Pos(wc.Pos()), "the verification waiver option is built outside the listener's fetch branch")
+				}
+				continue
+			}
+			nW++
+			if !isC || s != fetchPrefix {
+				r.Bad(rule, construct+" argument", p.Pos(wc.Pos()), "waiver option with a non-constant or unexpected prefix")
+				continue
+			}
+			fetchBlocks = append(fetchBlocks, wc.Block())
+			res := core.CutReach(p, G, gFetch, wc.Block())
+			r.CutOb(p, rule, construct+" under HasPrefix(p, fetch prefix)", p.Pos(wc.Pos()), res, gFetch)
+		}
+	}
+	if nW == 0 {
+		r.Unk(rule, gname+" waiver site", p.Pos(G.Pos()), "no WithAlpnProtoPrefix call found in the listener closure")
+	}
+	return fetchBlocks
 }
